@@ -18,11 +18,16 @@ mod replmode;
 use serde_json::{json, Value as J};
 use std::io::{BufRead, Write};
 
+pub static ALLOC_FAILED: std::sync::atomic::AtomicBool = std::sync::atomic::AtomicBool::new(false);
+
 fn main() {
   // Panics inside mech are data, not noise.
   std::panic::set_hook(Box::new(|_| {}));
   // an allocation that fails (address-space limit of the worker) becomes a catchable panic: data, not a crash
   std::alloc::set_alloc_error_hook(|layout| {
+    // remembered apart from the panic: a catch_unwind inside mech (interpret, run_program, compile, step) would otherwise turn an
+    // allocation without bound into an ordinary error and hide it (in a real process the failed allocation aborts the host)
+    ALLOC_FAILED.store(true, std::sync::atomic::Ordering::SeqCst);
     panic!("verif-alloc-error: {} bytes", layout.size());
   });
   let args: Vec<String> = std::env::args().collect();
